@@ -275,9 +275,13 @@ pub fn gen_case(
     let skel = skeleton(family, n, rng);
     let mut edges: Vec<(usize, usize, f64)> = vec![];
     let mut seen = std::collections::HashSet::new();
+    // sometimes every arc of a directed graph is reciprocated (with its own weight)
+    let all_reciprocal = specs.directed && rng.chance(1, 7);
     for (a, b) in skel {
         if specs.directed {
-            let mode = if family == "nested_scc" || family == "cycle" {
+            let mode = if all_reciprocal {
+                2
+            } else if family == "nested_scc" || family == "cycle" {
                 0
             } else {
                 rng.below(4)
@@ -317,6 +321,14 @@ pub fn gen_case(
             }
         }
     }
+    if opts.parallel && specs.multi && !edges.is_empty() && rng.coin() {
+        // three or more parallel edges on one pair, weights in arbitrary order
+        let (u, v, _) = edges[rng.below(edges.len())];
+        for _ in 0..rng.range(2, 3) {
+            let (x, y) = if !specs.directed && rng.coin() { (v, u) } else { (u, v) };
+            edges.push((x, y, wclass.draw(rng)));
+        }
+    }
     if opts.parallel && specs.multi && !edges.is_empty() {
         let k = 1 + rng.below(3);
         for _ in 0..k {
@@ -325,7 +337,18 @@ pub fn gen_case(
             edges.push((u, v, wclass.draw(rng)));
         }
     }
-    if opts.shuffle_edges {
+    if wclass == WClass::Exact && edges.len() >= 2 && rng.chance(1, 8) {
+        // weights that are not all 1 but sum to the number of edges
+        let m = edges.len() as f64;
+        let rest: f64 = edges[..edges.len() - 1].iter().map(|e| e.2).sum();
+        let last = m - rest;
+        if last >= 0.25 {
+            let i = edges.len() - 1;
+            edges[i].2 = last;
+        }
+    }
+    if opts.shuffle_edges && !(opts.parallel && specs.multi && rng.chance(1, 3)) {
+        // (on multigraphs the insertion order of parallel edges is sometimes kept as drawn)
         rng.shuffle(&mut edges);
     }
     GCase {
